@@ -531,13 +531,13 @@ example : (match partition demo .samp demoF true false with
     | .error _ => []) =
     [(.str "a", ["s1", "s2"], ["o1", "o2"]), (.str "b", ["s3"], ["o2"])] := by decide +kernel
 
+def demoSparse : Table Rat := { demo with smd := some [[("t", "a")], [], []] }
+
 /-- `_cast_metadata`: the part made only of samples without any metadata entry has NO sample
 metadata, the other part keeps its entries -/
-example : (match partition { demo with smd := some [[("t", "a")], [], []] } .samp
-      (.results [.str "x", .str "y", .str "y"]) false false with
-    | .ok ps => ps.map (fun p => (p.1, p.2.samp, p.2.smd))
-    | .error _ => []) =
-    [(.str "x", ["s1"], some [[("t", "a")]]), (.str "y", ["s2", "s3"], none)] := by decide +kernel
+example : (match partition demoSparse .samp (.results [.str "x", .str "y", .str "y"]) false false with
+    | .ok ps => ps.map (fun p => (p.2.samp, p.2.smd.isSome))
+    | .error _ => []) = [(["s1"], true), (["s2", "s3"], false)] := by decide +kernel
 
 /-- one-to-one collapse without normalisation: sums, and the totals 3, 12, 0 of o1, o2, o3 conserved -/
 example : (match collapse demo .samp demoF false 1 true with
